@@ -1253,13 +1253,6 @@ theorem step_closed (a : Actor) (env : Env) (dgram : Option (Message × Addr)) (
 
 /-! ### every history of the actor -/
 
-/-- the inputs of one iteration of the actor loop -/
-structure StepIn where
-  env : Env
-  dgram : Option (Message × Addr)
-  msg : Option ApiMsg
-
-def runSteps (a : Actor) (ins : List StepIn) : Actor := ins.foldl (fun a i => a.step i.env i.dgram i.msg) a
 
 /-- `m` from `s` is one of the datagrams delivered during the run -/
 def Delivered (ins : List StepIn) (e : Env) (m : Message) (s : Addr) : Prop :=
